@@ -143,7 +143,10 @@ MonEnv(M, p, k) ==
     \* stream open now, and every Closed until the connection is reported up again; it is not counted as a cause
     \* (the stream that is open, or that an open / Accept in progress may still bring, is lost with the connection
     \*  even if the protocol reports it opened - and then closed - only after the next connection is up)
-    [] k = "down" -> [M EXCEPT !.ps[p].conn = "down", !.ps[p].fault = TRUE, !.ps[p].want = FALSE, !.ps[p].ucl = 0, !.ps[p].lost = s.lost \/ Doomed(s)]
+    \* A connection that is merely reported closed does not cancel an open that is owed an answer: whatever state the
+    \* request reached, on_connection_closed answers it with an OpenFailure (only faults injected by the environment
+    \* - cut, stall - and a clogged channel void the obligation: they can hit the request before it is handled).
+    [] k = "down" -> [M EXCEPT !.ps[p].conn = "down", !.ps[p].fault = TRUE, !.ps[p].ucl = 0, !.ps[p].lost = s.lost \/ Doomed(s)]
     [] k = "cut" -> [M EXCEPT !.ps[p].fault = TRUE, !.ps[p].want = FALSE, !.ps[p].mustClose = s.mustClose \/ s.open, !.ps[p].ucl = 0,
                               !.ps[p].lost = s.lost \/ Doomed(s)]
     [] k = "stall" -> [M EXCEPT !.ps[p].fault = TRUE, !.ps[p].want = FALSE, !.ps[p].ucl = 0, !.ps[p].lost = s.lost \/ Doomed(s)]
